@@ -29,6 +29,44 @@ theorem fromStr_nil {s : Shape} : fromStr [] ≠ .ok s := by
   simp only [this, if_false] at h2
   split at h2 <;> cases h2
 
+/-- `parse_cst` on the root the parser builds in clean mode: whitespace, one value node, whitespace -/
+theorem parseCst_root (src : List Char) (pre sk : List Item) (n : Node) (d : Doc) (hpre : SkipItems pre)
+    (hsk : SkipItems sk) (hvn : isValueRule n = true) (hev : Evals src n d) :
+    parseCst src (.rule .file ((pre ++ (⟨n, false⟩ : Item) :: sk ++ []).map (fun i : Item => i.node))) =
+      liftS (inferDoc d) := by
+  have hroot : (pre ++ (⟨n, false⟩ : Item) :: sk ++ []).map (fun i : Item => i.node) =
+      pre.map (·.node) ++ n :: sk.map (·.node) := by simp
+  rw [hroot]
+  have hnoerr : NoErrNodes (pre.map (·.node) ++ n :: sk.map (·.node)) :=
+    noErr_append (skipItems_noErr hpre) (noErr_cons (valueRule_facts hvn).1 (skipItems_noErr hsk))
+  have hws : ∀ {l : List Item}, SkipItems l → ∀ m ∈ l.map (·.node), isWsNode m = true := by
+    intro l hl m hm
+    obtain ⟨i, hi, rfl⟩ := List.mem_map.1 hm
+    obtain ⟨_, k, a, b, e, hk'⟩ := hl i hi
+    rw [e]; rcases hk' with rfl | rfl <;> rfl
+  have hnws : isWsNode n = false := by
+    cases n with
+    | tok k a b => simp [isValueRule] at hvn
+    | rule r cs => rfl
+  have hfilter : ((pre.map (·.node) ++ n :: sk.map (·.node)).filter (fun m => !isWsNode m)) = [n] := by
+    rw [List.filter_append, List.filter_cons]
+    have a : (pre.map (·.node)).filter (fun m => !isWsNode m) = [] := by
+      rw [List.filter_eq_nil_iff]; intro m hm; simp [hws hpre m hm]
+    have b : (sk.map (·.node)).filter (fun m => !isWsNode m) = [] := by
+      rw [List.filter_eq_nil_iff]; intro m hm; simp [hws hsk m hm]
+    simp [a, b, hnws]
+  have hfind : ∀ l : List Node, (∀ m ∈ l, isWsNode m = true) → ∀ pe,
+      ∃ pe', findNode (fun m => !isWsNode m) pe (l ++ n :: sk.map (·.node)) = some (n, pe') := by
+    intro l
+    induction l with
+    | nil => intro _ pe; exact ⟨pe, by simp [findNode, hnws]⟩
+    | cons m l ih =>
+      intro hpre' pe
+      obtain ⟨pe', h'⟩ := ih (fun x hx => hpre' x (by simp [hx])) (nodeEnd pe m)
+      exact ⟨pe', by simp [findNode, hpre' m (by simp), h']⟩
+  obtain ⟨pe', hf⟩ := hfind _ (hws hpre) 0
+  simp only [parseCst, hasErrors_ok hnoerr, hfilter, List.length_singleton, Nat.lt_irrefl, if_false, hf, hev pe']
+
 /-- **token-level soundness of acceptance** -/
 theorem accept_sound (src : List Char) (s : Shape) (h : fromStr src = .ok s) :
     (tokenize src).diags = [] ∧
@@ -92,41 +130,7 @@ theorem accept_sound (src : List Char) (s : Shape) (h : fromStr src = .ok s) :
       rw [← sg0, ← hs0t, hsig, htnil]; simp [sig]
     rw [this]; exact htv
   · -- evaluation of the root
-    rw [htail, hitems] at hcst
-    have hroot : ((takeSkips (tokenize src).tokens).1 ++ (⟨n, false⟩ : Item) :: sk ++ []).map (fun i : Item => i.node) =
-        (takeSkips (tokenize src).tokens).1.map (·.node) ++ n :: sk.map (·.node) := by simp
-    rw [hroot] at hcst
-    have hnoerr : NoErrNodes ((takeSkips (tokenize src).tokens).1.map (·.node) ++ n :: sk.map (·.node)) :=
-      noErr_append (skipItems_noErr sk0) (noErr_cons (valueRule_facts hvn).1 (skipItems_noErr hsk))
-    have hws : ∀ {l : List Item}, SkipItems l → ∀ m ∈ l.map (·.node), isWsNode m = true := by
-      intro l hl m hm
-      obtain ⟨i, hi, rfl⟩ := List.mem_map.1 hm
-      obtain ⟨_, k, a, b, e, hk'⟩ := hl i hi
-      rw [e]; rcases hk' with rfl | rfl <;> rfl
-    have hnws : isWsNode n = false := by
-      cases n with
-      | tok k a b => simp [isValueRule] at hvn
-      | rule r cs => rfl
-    have hfilter : (((takeSkips (tokenize src).tokens).1.map (·.node) ++ n :: sk.map (·.node)).filter
-        (fun m => !isWsNode m)) = [n] := by
-      rw [List.filter_append, List.filter_cons]
-      have a : ((takeSkips (tokenize src).tokens).1.map (·.node)).filter (fun m => !isWsNode m) = [] := by
-        rw [List.filter_eq_nil_iff]; intro m hm; simp [hws sk0 m hm]
-      have b : (sk.map (·.node)).filter (fun m => !isWsNode m) = [] := by
-        rw [List.filter_eq_nil_iff]; intro m hm; simp [hws hsk m hm]
-      simp [a, b, hnws]
-    have hfind : ∀ pre : List Node, (∀ m ∈ pre, isWsNode m = true) → ∀ pe,
-        ∃ pe', findNode (fun m => !isWsNode m) pe (pre ++ n :: sk.map (·.node)) = some (n, pe') := by
-      intro pre
-      induction pre with
-      | nil => intro _ pe; exact ⟨pe, by simp [findNode, hnws]⟩
-      | cons m pre ih =>
-        intro hpre pe
-        obtain ⟨pe', h'⟩ := ih (fun x hx => hpre x (by simp [hx])) (nodeEnd pe m)
-        exact ⟨pe', by simp [findNode, hpre m (by simp), h']⟩
-    obtain ⟨pe', hf⟩ := hfind _ (hws sk0) 0
-    simp only [parseCst, hasErrors_ok hnoerr, hfilter, List.length_singleton, Nat.lt_irrefl, if_false, hf,
-      hev pe'] at hcst
+    rw [htail, hitems, parseCst_root src _ sk n d sk0 hsk hvn hev] at hcst
     cases hi : inferDoc d with
     | error e => rw [hi] at hcst; simp [liftS] at hcst
     | ok s' => rw [hi] at hcst; simp only [liftS] at hcst; cases hcst; rfl
